@@ -11,7 +11,7 @@ NOTE = ("Trusted: Coq 8.16.1 kernel; no axioms (Print Assumptions: closed under 
 CLAIMS = {
  "C01": ("12 theorems for all trees: key-by-key characterisation of map merge (C01_map_keywise), reject-iff (C01_map_reject_iff), $replace, scalars, null, list concat/replace/delete, extra keys, type clashes, frame over any number of layers; tied by 2-4 layer chains with directives at any position through MergeDocument, Documents() after every layer, OutputDocuments at the end.", "deepClone's YAML round trip is taken as the identity (whole-valued doubles excluded)."),
  "C02": ("Theorems: the target-selection rule as one equation (C02_targets), independence of every target and untouched others for any target set (C02_independent), order preservation; tied by call histories (base streams, parent links, document-level $match/$invert/null), Documents() compared after every call.", "that Go values behave as values (no aliasing) is what the history correspondence tests."),
- "C06": ("Theorems: identity on plain documents (C06_identity), escape theorem for arbitrary data eval[esc v] = [dn v] (C06_escape), escaped strings are never directives, unescape(escape s) = s; tied by plain, escaped and layered documents compared with the generating tree and the model.", "hypotheses: maps sorted before and after escaping (monotonicity of escaping not proved), nesting depth <= the depth guard."),
+ "C06": ("Theorems: identity on plain documents (C06_identity), escape theorem for arbitrary data eval[esc v] = [dn v] (C06_escape), escaped strings are never directives, unescape(escape s) = s; tied by plain, escaped and layered documents compared with the generating tree and the model.", "hypotheses: well-formed tree (sorted maps), nesting depth <= the depth guard of the evaluator."),
  "C07": ("Theorem C07_outputs_valid for every input and every directive: each output document is the unescaping of a tree validation accepted; marker refusal, $required sticks through unmentioning layers; tied by chains with $required and directive-shaped strings injected anywhere, ok/err with error class and outputs compared, outputs scanned.", "unicode.IsLower above ASCII is an oracle table (python unicodedata)."),
  "C09": ("Theorems: order-independence of the two map-order loops whose order is observable (merge entries, validation), evaluation is a function, repeated Output; tied by repeated execution: 4x in-process, 2 fresh processes, different histories concurrently from several goroutines (race detector in thorough), Output bytes held and compared, bkl binary 3x.", "goroutine half is empirical; package-level state checked syntactically."),
  "C10": ("Theorems: $replace/$merge:/$replace: step equations, $replace with a directive-free target evaluates exactly as the target in place, detached evaluation never writes to any document (target intact), string and list forms agree, dangling and ambiguous references are errors; tied by every reference form incl. nested references inside targets, vs model and vs the hand-inlined document.", "yaml.Unmarshal of reference strings is an oracle table (yaml.v3 called directly). $merge 'as if inline' is step equations only; overlapping host/target is order-dependent by design (partial)."),
